@@ -490,7 +490,129 @@ func runC06(c *core.Ctx) error {
 			return err
 		}
 	}
+	if err := c06Nested(c, reg); err != nil {
+		return err
+	}
 	return c06Store(c, reg)
+}
+
+// nestedReader delivers `data` in two halves and, between them, runs `mid` (another load on the same link system).
+type nestedReader struct {
+	data []byte
+	pos  int
+	mid  func()
+	done bool
+}
+
+func (r *nestedReader) Read(p []byte) (int, error) {
+	if r.pos >= len(r.data) {
+		return 0, io.EOF
+	}
+	half := (len(r.data) + 1) / 2
+	if r.pos >= half && !r.done {
+		r.done = true
+		r.mid()
+	}
+	end := len(r.data)
+	if r.pos < half {
+		end = half
+	}
+	n := copy(p, r.data[r.pos:end])
+	r.pos += n
+	return n, nil
+}
+
+// c06Nested: loads that OVERLAP on one link system - the storage reader of block A performs, half-way, a complete load
+// of block B (as a storage layered on the link system, a lazy ADL or a second goroutine would) and then goes on.
+// Every load answers as it does alone: good blocks load, a block whose stream is another block's tail or a corrupted
+// block is refused with a hash mismatch, whatever the other load did to any state the link system keeps.
+func c06Nested(c *core.Ctx, reg multicodec.Registry) error {
+	n := c.Pick(60, 4000)
+	for i := 0; i < n; i++ {
+		r := c.Rand.Fork()
+		lsys := cidlink.LinkSystemUsingMulticodecRegistry(reg)
+		hcode := []uint64{mh.SHA2_256, mh.SHA2_256, mh.SHA2_512, mh.SHA1}[r.Intn(4)]
+		lp := cidlink.LinkPrototype{Prefix: cid.Prefix{Version: 1, Codec: 0x55, MhType: hcode, MhLength: -1}}
+		// raw blocks: B is a prefix of A (the worst case for a hasher that is shared and re-fed), or unrelated
+		a := r.Bytes(40 + r.Intn(200))
+		var b []byte
+		if r.Bool() {
+			b = append([]byte{}, a[:len(a)/2]...)
+		} else {
+			b = r.Bytes(20 + r.Intn(100))
+		}
+		linkOf := func(data []byte) cidlink.Link {
+			sum, _ := mh.Sum(data, hcode, -1)
+			return cidlink.Link{Cid: cid.NewCidV1(0x55, sum)}
+		}
+		la, lb := linkOf(a), linkOf(b)
+		_ = lp
+		// what the storage delivers for A: the block itself, or only its tail (which must NOT be accepted for A's link)
+		streamA := a
+		tailOnly := r.Chance(1, 2)
+		if tailOnly {
+			streamA = a[len(a)/2:]
+		}
+		fn := []string{"Load", "Fill", "LoadRaw", "LoadPlusRaw"}[r.Intn(4)]
+		do := func(l cidlink.Link) (string, error) {
+			switch fn {
+			case "Load":
+				nd, err := lsys.Load(linking.LinkContext{}, l, basicnode.Prototype.Any)
+				return termOfOrErr(nd, err), err
+			case "Fill":
+				nb := basicnode.Prototype.Any.NewBuilder()
+				err := lsys.Fill(linking.LinkContext{}, l, nb)
+				if err != nil {
+					return "err " + err.Error(), err
+				}
+				return termOf(nb.Build()), nil
+			case "LoadRaw":
+				raw, err := lsys.LoadRaw(linking.LinkContext{}, l)
+				return fmt.Sprintf("%x %v", raw, err), err
+			default:
+				nd, raw, err := lsys.LoadPlusRaw(linking.LinkContext{}, l, basicnode.Prototype.Any)
+				return fmt.Sprintf("%s %x", termOfOrErr(nd, err), raw), err
+			}
+		}
+		var innerOut string
+		var innerErr error
+		nested := true
+		lsys.StorageReadOpener = func(_ linking.LinkContext, l datamodel.Link) (io.Reader, error) {
+			if l.(cidlink.Link).Cid.Equals(lb.Cid) {
+				return &nestedReader{data: b, mid: func() {}}, nil
+			}
+			rd := &nestedReader{data: streamA, mid: func() {}}
+			if nested {
+				rd.mid = func() { innerOut, innerErr = do(lb) }
+			}
+			return rd, nil
+		}
+		caseID := fmt.Sprintf("c06.nested %s hash=0x%x A=%x B=%x tail-only=%v", fn, hcode, a, b, tailOnly)
+		var outN, outAlone string
+		var errN, errAlone error
+		_, panicked, pv := core.Catch(func() error {
+			outN, errN = do(la)
+			nested = false
+			outAlone, errAlone = do(la)
+			return nil
+		})
+		c.Count(caseID, true)
+		c.Dist("nested-load:" + fn)
+		if panicked {
+			c.Fail("C06/panic", core.Replay{Kind: "oracle", Case: caseID, Impl: fmt.Sprint(pv)})
+			continue
+		}
+		if outN != outAlone || (errN == nil) != (errAlone == nil) {
+			c.Fail("C06/overlapping-loads-interfere", core.Replay{Kind: "oracle", Case: caseID, Impl: outN, Expected: outAlone, Detail: "load of A with a complete load of B performed by A's storage reader half-way, against the same load of A alone"})
+		}
+		if tailOnly && errN == nil {
+			c.Fail("C06/ok-without-hash-match", core.Replay{Kind: "oracle", Case: caseID, Impl: outN, Expected: "hash mismatch", Detail: "the storage delivered only the tail of A"})
+		}
+		if innerErr != nil {
+			c.Fail("C06/overlapping-loads-interfere", core.Replay{Kind: "oracle", Case: caseID, Impl: innerOut, Expected: "B loads", Detail: "the inner load (B, delivered intact) failed"})
+		}
+	}
+	return nil
 }
 
 // failingWriter fails on write number failAt.
